@@ -243,6 +243,67 @@ impl<T: std::cmp::PartialEq + std::fmt::Display + std::fmt::Debug> Element<T> {
         }
         name
     }
+
+    /// assign a unique struct name to each element of the tree that is rendered as a struct (addressed by its path of XML names)
+    /// names are taken from expand_name, a number is appended if the name is already in use or shadows a type used by the generated code
+    fn compute_struct_names(
+        &self,
+        trace_length: &HashMap<String, usize>,
+    ) -> HashMap<Vec<String>, String> {
+        fn fill_struct_names<T>(
+            element: &Element<T>,
+            trace: &mut Vec<String>,
+            path: &mut Vec<String>,
+            trace_length: &HashMap<String, usize>,
+            used: &mut Vec<String>,
+            names: &mut HashMap<Vec<String>, String>,
+        ) where
+            T: PartialEq,
+            T: std::fmt::Display,
+            T: std::fmt::Debug,
+        {
+            trace.push(element.formatted_name());
+            path.push(element.name.to_string());
+
+            let expanded_name = element.expand_name(trace, trace_length);
+            let mut unused_name = expanded_name.clone();
+            let mut i = 0;
+            while used.contains(&unused_name) {
+                i += 1;
+                unused_name = format!("{}{}", expanded_name, i);
+            }
+            used.push(unused_name.clone());
+            names.insert(path.clone(), unused_name);
+
+            // independent of Options::sort, so that sorting does not change any name
+            let mut children: Vec<&Element<T>> =
+                element.children.iter().map(|c| c.inner_t()).collect();
+            children.sort_by_key(|c| c.position);
+            for child in children {
+                if !child.contains_only_text() {
+                    fill_struct_names(child, trace, path, trace_length, used, names);
+                }
+            }
+
+            path.pop();
+            trace.pop();
+        }
+
+        let mut names = HashMap::new();
+        let mut used = vec!["Self", "String", "Option", "Vec"]
+            .into_iter()
+            .map(String::from)
+            .collect();
+        fill_struct_names(
+            self,
+            &mut Vec::new(),
+            &mut Vec::new(),
+            trace_length,
+            &mut used,
+            &mut names,
+        );
+        names
+    }
 }
 
 impl<T: std::cmp::PartialEq + std::fmt::Display + std::fmt::Debug + std::clone::Clone> Element<T> {
@@ -250,8 +311,9 @@ impl<T: std::cmp::PartialEq + std::fmt::Display + std::fmt::Debug + std::clone::
     /// those struct can be used to (de)serialize an XML document
     pub fn to_serde_struct(&self, options: &Options) -> String {
         let trace_length = self.compute_name_hints();
+        let struct_names = self.compute_struct_names(&trace_length);
         let mut trace = Vec::new();
-        self.inner_to_serde_struct(options, &mut trace, &trace_length)
+        self.inner_to_serde_struct(options, &mut trace, &struct_names)
     }
 
     /// generate a String representing this element and all children elements recursivly as series of Rust structs
@@ -260,12 +322,12 @@ impl<T: std::cmp::PartialEq + std::fmt::Display + std::fmt::Debug + std::clone::
         &self,
         options: &Options,
         trace: &mut Vec<String>,
-        trace_length: &HashMap<String, usize>,
+        struct_names: &HashMap<Vec<String>, String>,
     ) -> String {
         let mut serde_struct = String::new();
         let mut serde_child_struct = String::new();
 
-        trace.push(self.formatted_name());
+        trace.push(self.name.to_string());
 
         if !options.derive.is_empty() {
             serde_struct.push_str(&format!("#[derive({})]\n", options.derive));
@@ -273,7 +335,7 @@ impl<T: std::cmp::PartialEq + std::fmt::Display + std::fmt::Debug + std::clone::
 
         serde_struct.push_str(&format!(
             "pub struct {} {{\n",
-            self.expand_name(trace, trace_length)
+            struct_names.get(trace).cloned().unwrap_or_default()
         ));
 
         let mut used_attr_names = vec![];
@@ -355,30 +417,30 @@ impl<T: std::cmp::PartialEq + std::fmt::Display + std::fmt::Debug + std::clone::
             let text_only_element = child.inner_t().contains_only_text();
 
             if !text_only_element {
-                trace.push(child.inner_t().formatted_name());
+                trace.push(child_real_name.clone());
             }
 
             if child.inner_t().standalone() {
                 match child {
-                    Necessity::Mandatory(c) => {
+                    Necessity::Mandatory(_) => {
                         serde_struct.push_str(&format!(
                             "    pub {}: {},\n",
                             &child_name,
                             if text_only_element {
                                 "String".to_string()
                             } else {
-                                c.expand_name(trace, trace_length)
+                                struct_names.get(trace).cloned().unwrap_or_default()
                             }
                         ));
                     }
-                    Necessity::Optional(c) => {
+                    Necessity::Optional(_) => {
                         serde_struct.push_str(&format!(
                             "    pub {}: Option<{}>,\n",
                             &child_name,
                             if text_only_element {
                                 "String".to_string()
                             } else {
-                                c.expand_name(trace, trace_length)
+                                struct_names.get(trace).cloned().unwrap_or_default()
                             }
                         ));
                     }
@@ -392,7 +454,7 @@ impl<T: std::cmp::PartialEq + std::fmt::Display + std::fmt::Debug + std::clone::
                             if text_only_element {
                                 "String".to_string()
                             } else {
-                                child.inner_t().expand_name(trace, trace_length)
+                                struct_names.get(trace).cloned().unwrap_or_default()
                             }
                         ));
                     }
@@ -403,7 +465,7 @@ impl<T: std::cmp::PartialEq + std::fmt::Display + std::fmt::Debug + std::clone::
                             if text_only_element {
                                 "String".to_string()
                             } else {
-                                child.inner_t().expand_name(trace, trace_length)
+                                struct_names.get(trace).cloned().unwrap_or_default()
                             }
                         ));
                     }
@@ -416,7 +478,7 @@ impl<T: std::cmp::PartialEq + std::fmt::Display + std::fmt::Debug + std::clone::
                 serde_child_struct.push_str(&child.inner_t().inner_to_serde_struct(
                     options,
                     trace,
-                    trace_length,
+                    struct_names,
                 ));
             }
         }
